@@ -164,19 +164,34 @@ theorem parse_numeric3_text (a b yy tm : List Char) (s1 s2 : Char) (hms us : Int
   have pt := parseTime_text (a.length + b.length + 6 + tm.length + 1 - 1 - 1 - 1 - 1 - 1) tm hms us ht (by omega)
   simp only [parseTokens, hy4, ha.2.1, hb.2.1, h1, h2, and_self, if_true, pt, mk, Option.map_some]
 
+/-- ANY year-first text `yyyy<sep>m<sep>d[ time]` — month and day of one or two digits, padded or not, any two of the four
+separators, any time suffix — is read as its fields, in that order (round k3: `iso_any_sep`) -/
+theorem parse_iso_any_text (yy mm dd tm : List Char) (s1 s2 : Char) (hms us : Int) (hy : IsNumeral 4 yy) (hy4 : yy.length = 4)
+    (hm : IsNumeral 2 mm) (hd : IsNumeral 2 dd) (h1 : isDateSep s1 = true) (h2 : isDateSep s2 = true)
+    (hdot : s1 = s2 ∨ (s1 ≠ '.' ∧ s2 ≠ '.')) (ht : TimeText tm hms us) :
+    parseCs (yy ++ s1 :: (mm ++ s2 :: (dd ++ tm))) = some ⟨false, 0, digitsVal yy, digitsVal mm, digitsVal dd, hms, us⟩ := by
+  have p1 := sep_props s1 h1
+  have p2 := sep_props s2 h2
+  have lm := hm.len_pos; have ld := hd.len_pos
+  unfold parseCs
+  have hl : mm.length + dd.length + 6 + tm.length + 1 = (yy ++ s1 :: (mm ++ s2 :: (dd ++ tm))).length + 1 := by
+    simp only [List.length_append, List.length_cons, hy4]; omega
+  rw [← hl]
+  rw [scan_numeral _ (by omega) 4 yy _ hy (ndh_cons _ _ p1.1), scan_sep _ (by omega) _ _ p1.1 p1.2]
+  rw [scan_numeral _ (by omega) 2 mm _ hm (ndh_cons _ _ p2.1), scan_sep _ (by omega) _ _ p2.1 p2.2]
+  rw [scan_numeral _ (by omega) 2 dd _ hd ht.ndh]
+  have pt := parseTime_text (mm.length + dd.length + 6 + tm.length + 1 - 1 - 1 - 1 - 1 - 1) tm hms us ht (by omega)
+  generalize (mm.length + dd.length + 6 + tm.length + 1 - 1 - 1 - 1 - 1 - 1) = F at pt ⊢
+  have hm' := hm.2.1
+  have hdl : dd.length = 1 ∨ dd.length = 2 := by have := hd.2.1; omega
+  have h12 : (1 : Nat) ≤ 2 := by omega
+  rcases hdl with e | e <;>
+    simp only [parseTokens, hy4, e, hm', h1, h2, hdot, and_self, if_true, pt, mk, Option.map_some, Nat.le_refl, h12, true_and, and_true]
+
 /-- ANY ISO text `yyyy-mm-dd[ time]` is read as its fields -/
 theorem parse_iso_text (yy mm dd tm : List Char) (hms us : Int) (hy : IsNumeral 4 yy) (hy4 : yy.length = 4)
     (hm : IsNumeral 2 mm) (hm2 : mm.length = 2) (hd : IsNumeral 2 dd) (hd2 : dd.length = 2) (ht : TimeText tm hms us) :
-    parseCs (yy ++ '-' :: (mm ++ '-' :: (dd ++ tm))) = some ⟨false, 0, digitsVal yy, digitsVal mm, digitsVal dd, hms, us⟩ := by
-  unfold parseCs
-  have hl : 10 + tm.length + 1 = (yy ++ '-' :: (mm ++ '-' :: (dd ++ tm))).length + 1 := by
-    simp only [List.length_append, List.length_cons, hy4, hm2, hd2]; omega
-  rw [← hl]
-  have dash : ∀ r, NonDigitHead ('-' :: r) := fun r => ndh_cons _ _ (by decide)
-  rw [scan_numeral _ (by omega) 4 yy _ hy (dash _), scan_sep _ (by omega) _ _ (by decide) (by decide)]
-  rw [scan_numeral _ (by omega) 2 mm _ hm (dash _), scan_sep _ (by omega) _ _ (by decide) (by decide)]
-  rw [scan_numeral _ (by omega) 2 dd _ hd ht.ndh]
-  have pt := parseTime_text (10 + tm.length + 1 - 1 - 1 - 1 - 1 - 1) tm hms us ht (by omega)
-  simp only [parseTokens, hy4, hm2, hd2, pt, mk, Option.map_some]
+    parseCs (yy ++ '-' :: (mm ++ '-' :: (dd ++ tm))) = some ⟨false, 0, digitsVal yy, digitsVal mm, digitsVal dd, hms, us⟩ :=
+  parse_iso_any_text yy mm dd tm '-' '-' hms us hy hy4 hm hd (by decide) (by decide) (Or.inl rfl) ht
 
 end Pyg.DateParse
